@@ -24,10 +24,6 @@ pub type RawFd = i32;
 #[verifier::external_body] pub struct FrozenFd { _p: () }
 impl<'a> From<BorrowedFd<'a>> for FrozenFd { #[verifier::external_body] fn from(fd: BorrowedFd<'a>) -> FrozenFd { unimplemented!() } }
 impl From<&Path> for PathBuf { #[verifier::external_body] fn from(p: &Path) -> PathBuf { unimplemented!() } }
-#[verifier::external_body] pub struct FsOpenFlags { _p: () }
-#[verifier::external_body] pub struct FsMountFlags { _p: () }
-#[verifier::external_body] pub struct MountAttrFlags { _p: () }
-#[verifier::external_body] pub struct OpenTreeFlags { _p: () }
 
 pub open spec fn valid_dirfd(id: int) -> bool { raw_of(id) == libc::AT_FDCWD as int || raw_of(id) >= 0 }
 pub open spec fn stat_flags_ok(f: AtFlags) -> bool { f.bits == 0x800u32 | 0x100u32 | 0x1000u32 }
@@ -122,6 +118,7 @@ pub fn sys_openat2(dirfd: BorrowedFd<'_>, path: &CStringK, how: &syscalls::OpenH
         valid_dirfd(dirfd.id@),
         resolve_confined(how.resolve),                                  // [C01+C05+C07.openat2.confined_by_in_root_or_beneath]
         how.flags & 0o2000000u64 == 0o2000000u64,                       // [C05+C11.openat2.cloexec]
+        how.flags & 0o10000000u64 != 0 || how.flags & 0o400u64 == 0o400u64,   // [C05.openat2.noctty_unless_opath]
     ensures
         r >= 0 ==> fresh_kernel_fd(r as int) && last_openat2(r as int, dirfd.id@, path@, *how),
 { unimplemented!() }
@@ -147,5 +144,32 @@ impl OwnedFd {
         requires fd >= 0, fresh_kernel_fd(fd as int)                     // [C11.from_raw_fd.only_a_descriptor_the_kernel_just_returned]
         ensures raw_of(r.id()) == fd as int,
             forall|d: int, p: Seq<u8>, how: syscalls::OpenHow| #[trigger] last_openat2(fd as int, d, p, how) ==> a4_facts(r.id(), d, p, how),
+    { unimplemented!() }
+}
+//@include prelude/mountflags.rs
+pub mod rustix_mount {
+    use super::*;
+    #[verifier::external_body]
+    pub fn fsopen(fstype: &str, flags: FsOpenFlags) -> (r: Result<OwnedFd, Errno>)
+        requires flags.bits & 1u32 == 1u32,                        // [C05+C11.rustix_fsopen.cloexec]
+        ensures r matches Ok(fd) ==> cloexec(fd.id()),
+    { unimplemented!() }
+    #[verifier::external_body]
+    pub fn fsconfig_set_string<Fd: AsFd>(sfd: Fd, key: &str, value: &str) -> (r: Result<(), Errno>)
+        requires valid_dirfd(sfd.fd_id()),
+    { unimplemented!() }
+    #[verifier::external_body]
+    pub fn fsconfig_create<Fd: AsFd>(sfd: Fd) -> (r: Result<(), Errno>)
+        requires valid_dirfd(sfd.fd_id()),
+    { unimplemented!() }
+    #[verifier::external_body]
+    pub fn fsmount<Fd: AsFd>(sfd: Fd, flags: FsMountFlags, attrs: MountAttrFlags) -> (r: Result<OwnedFd, Errno>)
+        requires valid_dirfd(sfd.fd_id()), flags.bits & 1u32 == 1u32,      // [C05+C11.rustix_fsmount.cloexec]
+        ensures r matches Ok(fd) ==> cloexec(fd.id()),
+    { unimplemented!() }
+    #[verifier::external_body]
+    pub fn open_tree<Fd: AsFd, P: AsRefPath>(dirfd: Fd, path: P, flags: OpenTreeFlags) -> (r: Result<OwnedFd, Errno>)
+        requires valid_dirfd(dirfd.fd_id()), flags.bits & 0o2000000u32 == 0o2000000u32,      // [C05+C11.rustix_open_tree.cloexec]
+        ensures r matches Ok(fd) ==> cloexec(fd.id()),
     { unimplemented!() }
 }
